@@ -1,3 +1,6 @@
+#[cfg(feature = "verif-hooks")]
+use crate::verif::HashMap;
+#[cfg(not(feature = "verif-hooks"))]
 use std::collections::HashMap;
 
 use instant::Duration;
